@@ -15,16 +15,17 @@ The models (`Model/Total*.lean`) return `ok | err | panic site`; every unchecked
 (`Total.Sites.table`) is a checked operation of the model.  All theorems quantify over **all** inputs (`Bytes = List
 Nat`, elements are taken modulo 256) and all initial accounts.
 
-State of the code (`/repo` after e3534dd, 4853513, 6b80d4b, 8349742, cf30e8c, cb2ce34, 835fdd2): the eight sites the
-audit found open in the class reader and in `get_arguments_size` (1–8) are repaired; each former `_witness` theorem is
-now a regression theorem (`…_is_err` / `…_is_ok`).  What remains open: **site 9** (`opcode_pos + 1 + 2` in `u16` in
-the class writer's `if_helper`, `writer_if_wide_witness`) and, not a panic, the expansion of acyclic bootstrap-argument
-DAGs into trees (`dyn_expansion_witness`, now bounded by `fanout ^ 16`).
+State of the code (`/repo` after e3534dd, 4853513, 6b80d4b, 8349742, cf30e8c, cb2ce34, 835fdd2, 136eeb3): the nine sites
+the audit found open in the class reader, in `get_arguments_size` (1–8) and in the class writer's `if_helper` (9) are
+repaired; each former `_witness` theorem is now a regression theorem (`…_is_err` / `…_is_ok`).  No audited site is open
+(`open_sites`).  Not a panic and still there: the expansion of acyclic bootstrap-argument DAGs into trees
+(`dyn_expansion_witness`, bounded by `fanout ^ 16`).  The writer as a whole is C02's model: `Thm.C02.write_fails_cleanly`
+(the code array is written or refused with an error for every instruction list).
 
 * Full strength (`no_panic_X`): Tiny v2, tiny-diff, Enigma, nests, the three descriptor parsers, `read_code`
   (`no_panic_code`: in particular the guarded sites 20–34 never fire), element values, `Dynamic` resolution,
   `get_arguments_size`.
-* Partial: `no_panic_writer_grow_partial` (site 9).
+* The writer scenario of former site 9: `no_panic_writer_grow` (full strength).
 * Termination: every model function is structurally recursive (Lean's own check); the two bytecode loops and the
   `get_arguments_size` loop take fuel, `pass1_fuel` / `pass2_fuel` show that more fuel never changes the result.
 * Recursion is bounded by constants: `depth_bound_anno` (a value that is read is nested at most 256 deep),
@@ -203,19 +204,19 @@ theorem argsize_one_is_err :
 example : (Text.argSizeOp (jstr "(IDLjava/lang/Thread;)V")).run.1 = .ok () := by decide +kernel
 example : (Text.argSizeOp (40 :: List.replicate 254 73 ++ [41, 86])).run.1 = .ok () := by decide +kernel
 
-/-- the writer scenario `if_helper` with a known target panics at most at site 9 -/
-theorem no_panic_writer_grow_partial (nops nitf : Nat) (st : Acct) (s : Nat)
-    (h : (Writer.growOp nops nitf st).1 = .panic s) : s ∈ [Sites.writerIfWide] :=
-  (Text.growOp_spec nops nitf).panicsIn st s h
+/-- the writer scenario `if_helper` with a known target never panics (former site 9; the writer as a whole:
+`Thm.C02.write_fails_cleanly`) -/
+theorem no_panic_writer_grow (nops nitf : Nat) (st : Acct) (s : Nat) : (Writer.growOp nops nitf st).1 ≠ .panic s :=
+  (Text.growOp_spec nops nitf).panicsIn.not_panic st s
 
-/-- site 9 (**open**): a 65535-byte method (65530 `nop`, `ldc`, `ifeq` 32768 bytes back) in a class with 130
-interfaces: the writer turns `ldc` into `ldc_w` and computes `65533 + 1 + 2` in `u16` -/
-theorem writer_if_wide_witness : (Writer.growOp 65530 130).run.1 = .panic Sites.writerIfWide := by decide +kernel
+/-- regression of site 9 (136eeb3): a 65535-byte method (65530 `nop`, `ldc`, `ifeq` 32768 bytes back) in a class with
+130 interfaces: the writer turns `ldc` into `ldc_w`; `65533 + 1 + 2` leaves `u16` — an error (was: a panic) -/
+theorem writer_if_wide_is_err : (Writer.growOp 65530 130).run.1 = .err := by decide +kernel
 
 example : (Writer.growOp 65530 100).run.1 = .ok () := by decide +kernel
 
-/-- the only site of the audit that is still open -/
-theorem open_sites : Sites.openIds = [Sites.writerIfWide] := by decide +kernel
+/-- no site of the audit is still open -/
+theorem open_sites : Sites.openIds = [] := by decide +kernel
 
 /-! ## whole class files (C01's reader model) -/
 
